@@ -11,6 +11,7 @@ mod faultx;
 mod fileck;
 mod fresh;
 mod iosim;
+mod isolate;
 mod metax;
 mod optx;
 mod pool;
